@@ -133,8 +133,48 @@ mod vfs {
     use std::sync::Mutex;
     pub static FILES: Mutex<BTreeMap<String, Vec<u8>>> = Mutex::new(BTreeMap::new());
     pub static ASKED: Mutex<Vec<String>> = Mutex::new(Vec::new());
+    /// paths that exist but cannot be read, with the kind of failure
+    pub static ERRS: Mutex<BTreeMap<String, crate::scn::ErrKind>> = Mutex::new(BTreeMap::new());
+
+    #[derive(Debug)]
+    struct NotIo;
+    impl std::fmt::Display for NotIo {
+        fn fmt(&self, f: &mut std::fmt::Formatter) -> std::fmt::Result {
+            f.write_str("simulated failure (not an io::Error)")
+        }
+    }
+    impl std::error::Error for NotIo {}
+
+    fn errbox(kind: &crate::scn::ErrKind) -> Box<dyn std::error::Error + Send + Sync + 'static> {
+        use crate::scn::ErrKind as E;
+        use std::io::ErrorKind as K;
+        let os = |k: i32| -> Box<dyn std::error::Error + Send + Sync + 'static> { Box::new(std::io::Error::from_raw_os_error(k)) };
+        let simple = |k: K| -> Box<dyn std::error::Error + Send + Sync + 'static> { Box::new(std::io::Error::from(k)) };
+        match kind {
+            E::Enoent => os(2),
+            E::Eacces => os(13),
+            E::Eio => os(5),
+            E::Eisdir => os(21),
+            E::Eintr => os(4),
+            E::Einval => os(22),
+            E::Enotdir => os(20),
+            E::Eloop => os(40),
+            E::Enametoolong => os(36),
+            E::Enomem => os(12),
+            E::Eagain => os(11),
+            E::KInvalidInput => simple(K::InvalidInput),
+            E::KInvalidData => simple(K::InvalidData),
+            E::KOther => simple(K::Other),
+            E::KUnexpectedEof => simple(K::UnexpectedEof),
+            E::Custom => Box::new(NotIo),
+        }
+    }
+
     pub fn read(path: &str) -> Result<Vec<u8>, Box<dyn std::error::Error + Send + Sync + 'static>> {
         ASKED.lock().unwrap().push(path.to_string());
+        if let Some(k) = ERRS.lock().unwrap().get(path) {
+            return Err(errbox(k));
+        }
         match FILES.lock().unwrap().get(path) {
             Some(b) => Ok(b.clone()),
             None => Err(Box::new(std::io::Error::from_raw_os_error(2))),
@@ -356,10 +396,7 @@ fn exec_op(sc: &Scenario, st: &mut State, op: &Op) -> OpOut {
                     match &r {
                         Ok(c) => {
                             let _ = write!(core, "count={c} ");
-                            for x in big.iter().flatten() {
-                                canon::found(&mut core, x);
-                                core.push(';');
-                            }
+                            canon::found_list(&mut core, big.iter().flatten());
                         }
                         Err(e) => canon::tzerr(&mut core, e),
                     }
@@ -371,10 +408,7 @@ fn exec_op(sc: &Scenario, st: &mut State, op: &Op) -> OpOut {
                                 canon::opt_dt(&mut a, &l.unique());
                                 canon::opt_dt(&mut a, &l.earliest());
                                 canon::opt_dt(&mut a, &l.latest());
-                                for x in l.into_inner() {
-                                    canon::found(&mut a, &x);
-                                    a.push(';');
-                                }
+                                canon::found_list(&mut a, l.into_inner().iter());
                             }
                             Err(e) => canon::tzerr(&mut a, &e),
                         }
@@ -443,7 +477,12 @@ pub fn exec_scenario(sc: &Scenario, mut per_op: impl FnMut(usize, &Op, &OpOut)) 
     {
         let mut f = vfs::FILES.lock().unwrap();
         f.clear();
+        let mut e = vfs::ERRS.lock().unwrap();
+        e.clear();
         for fi in &sc.files {
+            if let Some(k) = &fi.perm {
+                e.insert(fi.path.clone(), k.clone());
+            }
             if let Some(Content::Gen(z)) = sc.contents.get(fi.cid) {
                 if let Some(b) = z.bytes() {
                     f.insert(fi.path.clone(), b);
